@@ -212,10 +212,15 @@ def main():
     exit_code = core.EXIT_HELD
     reported, known_hits, seen = [], [], set()
     bad = [r for r in results if r['violation']]
-    for r in bad[:5]:
+    # (for the tools that only need the verdict: VERIF_MAX_REPORT=1 VERIF_NO_MINIMISE=1 reports the
+    # first difference as found, with the whole job as replay file)
+    for r in bad[:int(os.environ.get('VERIF_MAX_REPORT', '5'))]:
         seed, job, variants = scansim.make_job(root, r['index'], thorough, PROP)
-        m = Minimiser(job, variants)
-        mjob, mvariants, mm = m.run(r['violation']['variant_index'])
+        if os.environ.get('VERIF_NO_MINIMISE') == '1':
+            mjob, mvariants, mm = job, variants, None
+        else:
+            m = Minimiser(job, variants)
+            mjob, mvariants, mm = m.run(r['violation']['variant_index'])
         scansim.servers().stop_all()
         if mm is None:
             mm, mjob, mvariants = r['violation'], job, variants
